@@ -412,7 +412,8 @@ def attributes(model, sol):
 # ----------------------------------------------------------------------------------------------
 # TLC side
 def tlc_programs(ctx, cfg, env=None, what="programs", workers=1):
-    res = tlc.run("Simplify", cfg, workers=workers, env=env or {}, deadlock=False, timeout=3000)
+    res = tlc.run("Simplify", cfg, workers=workers, env=env or {}, deadlock=False, timeout=3000,
+                  spec_dir=os.environ.get("VERIF_SPEC_DIR", tlc.SPEC))
     ctx.add_tlc(res, what)
     if res.violated:
         raise MachineryError("spec Simplify violates %s under %s (a spec defect, not a pymoca verdict):\n%s" % (
